@@ -40,9 +40,12 @@ fn encode_log(cfgc: &CtxCfg, log: &[(bool, Op)]) -> String {
 fn tr(rep: &mut Report, p: &Pair, op: &Op, obs: &Obs, both: bool) {
     if let Some(id) = p.trace {
         let (k, x) = match op {
-            Op::Process(x) => ("P", x),
-            Op::Decode(x) => ("D", x),
-            _ => return,
+            Op::Process(x) => ("P", hex(x)),
+            Op::Decode(x) => ("D", hex(x)),
+            Op::GetLength(x) => ("L", hex(x)),
+            Op::AccReq(v) => ("A", format!("{:02x}", v)),
+            Op::AccResp(v) => ("B", format!("{:02x}", v)),
+            Op::SetUuid(u) => ("U", hex(u)),
         };
         let res = match (&obs.proc, &obs.dec) {
             (Some(pr), _) => pr.class(),
@@ -54,7 +57,7 @@ fn tr(rep: &mut Report, p: &Pair, op: &Op, obs: &Obs, both: bool) {
             ("h", J::u(id)),
             ("c", J::u(0)),
             ("op", J::s(k)),
-            ("in", J::s(hex(x))),
+            ("in", J::s(x)),
             ("both", J::Bool(both)),
             ("res", J::s(res)),
             ("resp", obs.resp.as_ref().map(|r| J::s(hex(r))).unwrap_or(J::Null)),
